@@ -1,6 +1,8 @@
 package stack
 
 import (
+	"fmt"
+
 	"pgregory.net/rapid"
 
 	"verifharness/h"
@@ -94,6 +96,54 @@ func outageOf(j func(Hist) *h.Verdict) func(Hist) *h.Verdict {
 				}
 			case "blockfile":
 				v.Label("requests-while:cdr-file-unwritable")
+			}
+		}
+		return v
+	}
+}
+
+// judgeOutage: what must hold whatever fails around the CHF.  While a collaborator is unreachable or the subscriber's
+// CDR file cannot be written a request may be answered with any status - but it is answered; and as soon as
+// everything works again every request is served like any other: the sessions that were never released still accept
+// updates and a release under the reference their create returned, no subscriber is left blocked, nothing panics.
+func judgeOutage(strict5xx bool) func(Hist) *h.Verdict {
+	return func(hst Hist) *h.Verdict {
+		v := &h.Verdict{}
+		w := NewWorld(hst)
+		for step, op := range hst.Ops {
+			st := w.subs[op.S%len(w.subs)]
+			faulty := w.ratingDown || w.abmfDown || st.fileBlocked
+			res := w.Exec(op)
+			if res.Skipped {
+				continue
+			}
+			if timedOut(res) {
+				v.Skipped = true
+				return v
+			}
+			during := "while everything works"
+			if faulty {
+				during = fmt.Sprintf("while rating down=%v, account function down=%v, CDR file unwritable=%v", w.ratingDown, w.abmfDown, st.fileBlocked)
+			}
+			if res.Status == statusHung {
+				return v.Failf("request-never-returns/"+op.K, "step %d of %d (%s, subscriber %d, %s): %s", step, len(hst.Ops), op.K, op.S, during, res.Body)
+			}
+			if op.K != "create" && op.K != "update" && op.K != "release" && op.K != "recharge" {
+				continue
+			}
+			if len(res.Panics) > 0 && !st.fileBlocked {
+				// (an unwritable CDR file makes the file writer panic on the unchanged tree as well: not judged here)
+				return v.Failf("handler-panic/"+op.K+"/"+h.PanicFrame(res.Panics[0]), "step %d (%s): handler panicked: %.2000s", step, during, res.Panics[0])
+			}
+			if faulty {
+				if strict5xx && res.Status >= 500 && !st.fileBlocked {
+					return v.Failf("5xx/"+op.K+"/collaborator-unreachable", "step %d (%s): %s answered %d %.300s", step, during, op.K, res.Status, res.Body)
+				}
+				continue
+			}
+			want := map[string]int{"create": 201, "update": 200, "release": 204, "recharge": 204}[op.K]
+			if res.Status != want {
+				return v.Failf("session-unusable-after-outage/"+op.K, "step %d (everything works again): %s for subscriber %d answered %d %.300s, want %d; the session was created earlier and never released", step, op.K, op.S, res.Status, res.Body, want)
 			}
 		}
 		return v
